@@ -63,7 +63,10 @@ type Fault struct {
 	Micros int
 	// OnlyOp, if set, makes the fault apply to the first scoped call with Seq >= At whose op matches.
 	OnlyOp string
-	fired  bool
+	// OnlyOps: like OnlyOp with a set of ops (runs whose call sequence varies slightly, e.g. through map
+	// iteration order, then still get the fault at a call of the intended kind).
+	OnlyOps map[string]bool
+	fired   bool
 }
 
 // Mon is one monitoring session.
@@ -203,10 +206,13 @@ func (m *Mon) before(ev *os.VerifEvent) error {
 		if f.fired || seq < f.At {
 			continue
 		}
-		if f.OnlyOp == "" && seq != f.At {
+		if f.OnlyOp == "" && f.OnlyOps == nil && seq != f.At {
 			continue
 		}
 		if f.OnlyOp != "" && f.OnlyOp != ev.Op {
+			continue
+		}
+		if f.OnlyOps != nil && !f.OnlyOps[ev.Op] {
 			continue
 		}
 		f.fired = true
